@@ -196,7 +196,7 @@ def wildcard_deletes(col, rng):
     """through wildcards: deletion at EVERY match; with ignore_missing matches lacking the element are skipped, the others deleted"""
     import copy
     for _ in range(120):
-        layers = rng.choice([1, 1, 2])
+        layers = rng.choice([1, 1, 2, 3])
         n = rng.randint(1, 4)
         final = rng.choice(['key', 'index', 'attr'])
 
@@ -211,6 +211,10 @@ def wildcard_deletes(col, rng):
             t1 = {'rows': [entry() for _ in range(n)]}
             holders = lambda t: list(t['rows'])
             base = 'rows.*'
+        elif layers == 3:
+            t1 = {'rows': [{'sub': [{'deep': [entry() for _ in range(rng.randint(0, 2))]} for _ in range(rng.randint(0, 2))]} for _ in range(n)]}
+            holders = lambda t: [e for r in t['rows'] for x in r['sub'] for e in x['deep']]
+            base = 'rows.*.sub.*.deep.*'
         else:
             t1 = {'rows': [{'sub': [entry() for _ in range(rng.randint(0, 3))]} for _ in range(n)]}
             holders = lambda t: [e for r in t['rows'] for e in r['sub']]
@@ -256,6 +260,36 @@ def wildcard_deletes(col, rng):
         col.count('successful_deletions')
 
 
+def reused_delete_object(col, rng):
+    """one Delete object applied to parents of different kinds, in every order, and one wildcard over mixed kinds"""
+    import itertools
+    for style in ('string', 'T-item'):
+        kinds = {'dict': lambda: {'1': 'a', 'x': 0}, 'list': lambda: ['p', 'q', 'r'], 'obj': lambda: gen.PlainObj(**{'k': 1}), 'odict': lambda: __import__('collections').OrderedDict([('1', 'a')])}
+        for order in itertools.permutations(['dict', 'list', 'odict'], 3):
+            spec_obj = Delete('1') if style == 'string' else Delete(T['1']) if False else Delete(Path('1'))
+            for kind in order:
+                t = kinds[kind]()
+                twin = kinds[kind]()
+                if kind == 'list':
+                    del twin[1]
+                else:
+                    del twin['1']
+                got = call(G, t, spec_obj)
+                col.case(('reused-delete', style, order, kind), True)
+                col.count('deletions_attempted')
+                if not got.ok or not isomorphic(t, twin):
+                    col.violation('C12/reused-delete-object-uses-stale-handler', "one Delete('1') object applied to %s in turn: on the %s it gave %r, target %s, expected %s"
+                                  % (order, kind, got if not got.ok else 'returned', short(t), short(twin)), None)
+                    break
+    mixed = lambda: [{'x': 1, 'y': 2}, gen.PlainObj(x=1, y=2), {'x': 3}]
+    t, twin = mixed(), mixed()
+    del twin[0]['x']; del twin[1].x; del twin[2]['x']
+    got = call(delete, t, '*.x')
+    col.count('deletions_attempted')
+    if not got.ok or not isomorphic(t, twin):
+        col.violation('C12/wildcard-over-mixed-kinds', "delete([dict, obj, dict], '*.x'): %r, target %s" % (got if not got.ok else 'returned', short(t)), None)
+
+
 def run(ctx):
     col, rng = ctx.col, ctx.rng
     col.require('successful_deletions', 200)
@@ -263,5 +297,7 @@ def run(ctx):
     col.require('missing_parent_cases', 200)
     col.require('faults_injected', 20)
     wildcard_deletes(col, rng)
+    if ctx.shard == 0:
+        reused_delete_object(col, rng)
     for i in range(ctx.n(350, 3500)):
         one_target(col, rng)
